@@ -324,6 +324,11 @@ def shaped_values() -> list[Any]:
             [Decimal("NaN"), Decimal(1), 2], [Decimal("sNaN"), 1.5], {"a": Decimal("sNaN")}, dd, dd2,
             range(0, 0), range(5, 0, -1),
             collections.OrderedDict(a=1), collections.Counter("aab"), frozenset([1, 2]), {1, 2}]
+    # timestamps around what the platform's C library can represent, and date / time objects
+    import datetime
+
+    out += [2 ** 62, -(2 ** 62), 10 ** 12, -(10 ** 12), 10 ** 17, 1e17, -1e17, 253402300800, -62135596801, str(2 ** 62),
+            datetime.datetime(2020, 1, 2, 3, 4, 5), datetime.date(1, 1, 1), datetime.time(23, 59), datetime.datetime(9999, 12, 31, 23, 59, 59)]
     # (bytes, complex numbers and arbitrary objects are outside the property's "JSON-like data")
     try:
         from liquid2.builtin.tags.for_tag import ForLoop
@@ -356,13 +361,25 @@ DATA_TAG_SHAPES = [
 FORLOOP_WRAP = "{% for q in (1..2) %}{S}{% endfor %}"
 
 
-def data_argument_cases(r: random.Random, tier: str, filter_names: list[str]) -> list[tuple[str, dict[str, Any]]]:
+KEYWORD_SHAPES = ["{{ x | F: K: y }}", "{{ x | F: z, K: y }}", "{{ 'now' | F: K: y }}{{ 1 | F: K: x }}"]
+
+
+def data_argument_cases(r: random.Random, tier: str, filter_names: list[str],
+                        filter_keywords: dict[str, list[str]] | None = None) -> list[tuple[str, dict[str, Any]]]:
+    """filter_keywords: the keyword-only parameters of each filter (found by introspection in c02.py)."""
     vals = shaped_values()
     k = 30 if tier == "thorough" else 5
     out: list[tuple[str, dict[str, Any]]] = []
 
     def draw() -> dict[str, Any]:
         return {"x": r.choice(vals), "y": r.choice(vals), "z": r.choice(vals)}
+
+    for f, kws in sorted((filter_keywords or {}).items()):
+        for kw in kws:
+            for shape in KEYWORD_SHAPES:
+                src = shape.replace("F", f).replace("K", kw)
+                for _ in range(k * 2):
+                    out.append((src, draw()))
 
     for f in filter_names:
         for shape in FILTER_SHAPES:
@@ -455,6 +472,23 @@ def literal_cases(r: random.Random, tier: str) -> list[str]:
     pairs = [(m, e, c) for m in mant for e in exps for c in ctx[1:]]
     r.shuffle(pairs)
     out += [c.replace("L", m + e) for m, e, c in pairs[: (len(pairs) if tier == "thorough" else 150)]]
+    # around the int->str digit limit: the VALUE has 4299..4302 digits, spelled with trailing / leading zeros and signs
+    # in the mantissa; whatever passes the parser's digit count must survive str() wherever the value is printed
+    printing = ["{{ L }}", "{% for x in (L..L) %}{{ forloop.name }}{% endfor %}", "{% for x in L %}{% endfor %}", "{% cycle 'a${L}', 1 %}",
+                "{{ \"${L}\" }}", "{% assign y = L %}{{ y | json }}", "{% cycle L, 1 %}{% cycle L, 1 %}", "{{ (L..L) }}", "{{ (L..L) | json }}",
+                "{% if 'a' contains L %}{% endif %}", "{{ 'x' | append: L }}", "{% for x in (1..2) limit: L %}{% endfor %}",
+                "{% tablerow x in (L..L) %}{% endtablerow %}", "{{ L | times: 10 }}", "{% increment L %}" , "{{ a[L] }}", "{% liquid echo L %}"]
+    bm = ["1", "10", "100", "1000", "-10", "-100", "-1000", "010", "0010", "-0100", "12", "120", "-1200", "9", "990", "99900", "1" + "0" * 40, "-7" + "0" * 9]
+    core, more = [], []
+    for m in bm:
+        digits = m.lstrip("-")
+        for total in (4299, 4300, 4301, 4302):
+            for width in {len(digits), len(digits.lstrip("0"))}:
+                lit = f"{m}e{total - width}"
+                for c in printing:
+                    (core if (m in ("10", "-100", "1000", "120", "010") and total >= 4300 and c in printing[:6]) else more).append(c.replace("L", lit))
+    r.shuffle(more)
+    out += core + more[: (len(more) if tier == "thorough" else 250)]
     out += ["{{ " + "9" * 5000 + " }}", "{{ " + "0" * 100000 + " }}", "{{ 1" + "0" * 10000 + ".5 }}", "{{ -" + "7" * 4301 + " }}", "{{ " + "7" * 4300 + " }}",
             "{{ 0." + "0" * 50000 + "1 }}", "{{ 1e" + "9" * 400 + " }}", "{{ 0e" + "9" * 400 + " }}", "{{ (0e999999999..0e999999999) }}"]
     return out
